@@ -43,7 +43,7 @@ pub fn enumerate(case: &Case, base: &RunOutput, pairs: bool) -> Vec<Case> {
         let mut durs: Vec<u32> = vec![];
         for cl in &case.clients {
             for op in cl {
-                if let ClientOp::Send { work, .. } | ClientOp::Call { work, .. } | ClientOp::CallDrop { work, .. } | ClientOp::SendRepoll { work, .. } = op {
+                if let ClientOp::Send { work, .. } | ClientOp::Call { work, .. } | ClientOp::CallDrop { work, .. } | ClientOp::SendRepoll { work, .. } | ClientOp::SendDrop { work, .. } = op {
                     let d: u32 = work.iter().map(|s| if let Step::Sleep(x) = s { *x } else { 0 }).sum();
                     if d >= 2 && !durs.contains(&d) {
                         durs.push(d);
@@ -56,7 +56,7 @@ pub fn enumerate(case: &Case, base: &RunOutput, pairs: bool) -> Vec<Case> {
             // never equal to another handler's duration
             let t_out = d - 1;
             let clash = case.clients.iter().flatten().any(|op| match op {
-                ClientOp::Send { work, .. } | ClientOp::Call { work, .. } | ClientOp::CallDrop { work, .. } | ClientOp::SendRepoll { work, .. } => work.iter().map(|s| if let Step::Sleep(x) = s { *x } else { 0 }).sum::<u32>() == t_out && t_out > 0,
+                ClientOp::Send { work, .. } | ClientOp::Call { work, .. } | ClientOp::CallDrop { work, .. } | ClientOp::SendRepoll { work, .. } | ClientOp::SendDrop { work, .. } => work.iter().map(|s| if let Step::Sleep(x) = s { *x } else { 0 }).sum::<u32>() == t_out && t_out > 0,
                 _ => false,
             });
             if clash || t_out == 0 {
